@@ -140,6 +140,10 @@ impl Discv5 {
             table_filter,
             bucket_filter,
         )));
+        #[cfg(feature = "verif-hooks")]
+        if let Some(timeout) = crate::verif::pending_timeout() {
+            kbuckets.write().verif_set_pending_timeout(timeout);
+        }
 
         // Update the PermitBan list based on initial configuration
         *PERMIT_BAN_LIST.write() = config.permit_ban_list.clone();
